@@ -3,7 +3,6 @@ package scn
 import (
 	"context"
 	"encoding/json"
-	"errors"
 	"fmt"
 	"hash/fnv"
 	"net"
@@ -37,12 +36,12 @@ type c12poolCfg struct {
 }
 
 var c12sessionPools = []c12poolCfg{
-	{"10.12.0.0/29", 32},         // 8 x /32
-	{"10.12.0.0/30", 32},         // 4 x /32
-	{"10.12.0.0/28", 30},         // 4 x /30
-	{"10.12.0.0/28", 31},         // 8 x /31
-	{"2001:db8:12:10::/61", 64},  // 8 x /64
-	{"2001:db8:12::/126", 128},   // 4 x /128
+	{"10.12.0.0/29", 32},        // 8 x /32
+	{"10.12.0.0/30", 32},        // 4 x /32
+	{"10.12.0.0/28", 30},        // 4 x /30
+	{"10.12.0.0/28", 31},        // 8 x /31
+	{"2001:db8:12:10::/61", 64}, // 8 x /64
+	{"2001:db8:12::/126", 128},  // 4 x /128
 }
 
 var c12leasePools = []c12poolCfg{
@@ -53,16 +52,16 @@ var c12leasePools = []c12poolCfg{
 
 // c12touch is the last thing that determined node n's answer for a subscriber.
 type c12touch struct {
-	event   bool // true: a delivered watch notification; false: a local operation
-	deleted bool
-	prefix  string
-	before  string // the node's answer just before the delivery
+	event             bool // true: a delivered watch notification; false: a local operation
+	deleted           bool
+	prefix            string
+	before            string // the node's answer just before the delivery
 	holder, holderRec string
-	nodeEpoch uint64
-	seq     int
-	ticks   int
-	from    int
-	recEpoch uint64
+	nodeEpoch         uint64
+	seq               int
+	ticks             int
+	from              int
+	recEpoch          uint64
 }
 
 type c12slot struct {
@@ -74,12 +73,12 @@ type c12slot struct {
 	up     bool
 	gen    int
 	// fault plan (consumed by whichever incarnation makes the next store calls)
-	errIn       int
-	crashIn     int
-	crashBefore bool
-	downHow     string // how the previous incarnation ended: crash | stop
-	ticks       int    // epoch ticks observed (Query calls outside Start)
-	touch       map[string]*c12touch
+	errIn             int
+	crashIn           int
+	crashBefore       bool
+	downHow           string // how the previous incarnation ended: crash | stop
+	ticks             int    // epoch ticks observed (Query calls outside Start)
+	touch             map[string]*c12touch
 	lastQueryPermuted bool
 }
 
@@ -548,8 +547,6 @@ func c12sortedKeys(m map[string]string) []string {
 	sort.Strings(ks)
 	return ks
 }
-
-var _ = errors.Is
 
 func init() {
 	sim.Register(&sim.Scenario{
